@@ -196,7 +196,7 @@ impl Prop for C18 {
             .into()
     }
     fn assumptions(&self) -> Vec<String> {
-        vec!["TOML is documented as unsupported and not exercised".into(), "gds2json/gds2yaml/markup2gds are thin clap wrappers over gds_serialization::{to_markup,from_markup}, which are called in-process".into()]
+        vec!["TOML is documented as unsupported and not exercised".into(), "gds2json/gds2yaml/markup2gds are thin clap wrappers over gds_serialization::{to_markup,from_markup}: called in-process in both tiers; the thorough tier additionally spawns the real binaries (generator cli-binaries; skipped with a counter if they cannot be built)".into()]
     }
     fn plan(&self, tier: Tier) -> Vec<GenSpec> {
         vec![
@@ -204,6 +204,8 @@ impl Prop for C18 {
             GenSpec::random("gds-reals", tier.pick(2_000, 200_000)),
             GenSpec::random("lef-values", tier.pick(4_000, 300_000)),
             GenSpec::random("gds-bytes", tier.pick(1_500, 100_000)),
+            // the real gds2json / gds2yaml / markup2gds binaries, built from /repo by ./check for the thorough tier (LVH_BINS)
+            GenSpec::random("cli-binaries", tier.pick(0, 300)),
         ]
     }
     fn run_case(&self, cx: &mut Cx) {
@@ -279,6 +281,47 @@ impl Prop for C18 {
                     }
                     _ => cx.count("gds_bytes_not_canonical_skipped"),
                 }
+            }
+            "cli-binaries" => {
+                let dir = match std::env::var("LVH_BINS") {
+                    Ok(d) if std::path::Path::new(&d).join("markup2gds").exists() => std::path::PathBuf::from(d),
+                    _ => {
+                        cx.count("cli_binaries_unavailable");
+                        return;
+                    }
+                };
+                let cfg = GenCfg { strclass: StrClass::Mixed, maxstr: 16, wide_reals: false, max_structs: 3, max_elems: 5, max_pts: 5 };
+                let mut ast = rand_lib(&mut cx.rng, &cfg);
+                hostilise(&mut cx.rng, &mut ast);
+                let bytes = encode(&ast, &EncOpts::default()).out;
+                let canonical = GdsLibrary::from_bytes(&bytes).ok().and_then(|l| { let mut b = Vec::new(); l.write(&mut b).ok().map(|_| b) });
+                if canonical.as_deref() != Some(&bytes[..]) {
+                    cx.count("gds_bytes_not_canonical_skipped");
+                    return;
+                }
+                for (tool, fmt) in [("gds2json", "json"), ("gds2yaml", "yaml")] {
+                    cx.eval();
+                    cx.nontrivial(crate::rt::prng::byteshash(&bytes) ^ fmt.len() as u64 ^ 0xC11);
+                    let (a, m, b) = (cx.tmp("cli-a.gds"), cx.tmp(&format!("cli-a.{}", fmt)), cx.tmp("cli-b.gds"));
+                    std::fs::write(&a, &bytes).unwrap();
+                    let run = |exe: &str, args: &[&str]| std::process::Command::new(dir.join(exe)).args(args).stdout(std::process::Stdio::null()).stderr(std::process::Stdio::null()).status().map(|s| s.success()).unwrap_or(false);
+                    let ok1 = run(tool, &["-i", a.to_str().unwrap(), "-o", m.to_str().unwrap()]);
+                    let ok2 = ok1 && run("markup2gds", &["-i", m.to_str().unwrap(), "-f", fmt, "-o", b.to_str().unwrap()]);
+                    if !ok2 {
+                        cx.violation(&format!("cli|{}|{}-failed", fmt, if ok1 { "markup2gds" } else { tool }), json!({"bytes": render_bytes(&bytes)}));
+                    } else {
+                        let b2 = std::fs::read(&b).unwrap_or_default();
+                        if b2 != bytes {
+                            cx.violation(&format!("cli|{}|different-bytes", fmt), json!({"bytes": render_bytes(&bytes), "back": render_bytes(&b2)}));
+                        } else {
+                            cx.count(&format!("cli_{}_roundtrip_ok", fmt));
+                        }
+                    }
+                    for p in [&a, &m, &b] {
+                        let _ = std::fs::remove_file(p);
+                    }
+                }
+                cx.sample(|| json!({"cli": "gds2json/gds2yaml -> markup2gds on a generated stream", "bytes": bytes.len()}));
             }
             other => cx.inconclusive(format!("unknown generator {}", other)),
         }
